@@ -68,6 +68,10 @@ theorem init_tinv (cfg : Config S) (P : NodeId → Proto S σ) : TInv cfg (init 
   · exact TInv.congr (w := init0 cfg P) rfl (Int.le_refl _) h0
   · exact h0
 
+theorem initWith_tinv (cfg : Config S) (P : NodeId → Proto S σ) (pre : List (NodeId × Prog S σ)) :
+    TInv cfg (initWith cfg P pre) :=
+  TInv.ext (ext_initWith cfg P pre) (init_tinv cfg P)
+
 theorem reportedTime_mono (cfg : Config S) {w w' : World S σ} (h : w.loop.now ≤ w'.loop.now) :
     reportedTime cfg w ≤ reportedTime cfg w' := by
   unfold reportedTime; split <;> omega
@@ -123,9 +127,9 @@ theorem step_tinv (cfg : Config S) (hdt : 0 ≤ cfg.dt) (P : NodeId → Proto S 
 
 theorem reachable_tinv {cfg : Config S} (hdt : 0 ≤ cfg.dt) {P : NodeId → Proto S σ} {w : World S σ}
     (h : Reachable cfg P w) : TInv cfg w := by
-  obtain ⟨n, rfl⟩ := h
+  obtain ⟨pre, n, rfl⟩ := h
   suffices ∀ n (w : World S σ), WInv w → TInv cfg w → WInv (steps cfg P n w) ∧ TInv cfg (steps cfg P n w) from
-    (this n _ (init_inv cfg P hdt) (init_tinv cfg P)).2
+    (this n _ (initWith_inv cfg P hdt pre) (initWith_tinv cfg P pre)).2
   intro n
   induction n with
   | zero => intro w hw ht; exact ⟨hw, ht⟩
